@@ -1,6 +1,5 @@
 package main
 
 type C06Plan struct{}
-type C10Plan struct{}
 type C11Plan struct{}
 type C12Plan struct{}
